@@ -468,3 +468,275 @@ package flyt
 //@     requires [C17] x == anyView(execResult)
 //@     effect calls = 1; ua = act; ue = e
 //@   ensures [C17] calls == 1 && a == ua && err == ue
+
+// ---------------------------------------------------------------------------
+// SharedStore (C13 lock discipline, C14 map semantics and isolated snapshots)
+// ---------------------------------------------------------------------------
+
+//@ guarded SharedStore.data by mu
+
+//@ func NewSharedStore() (s)
+//@   ensures [C14] fresh(s) && fresh(s.data) && (forall k string :: !has(s.data, k)) && len(s.data) == 0
+
+//@ func (*SharedStore).Get(s, key) (val, ok)
+//@   requires s != nil
+//@   ensures [C14,C15,C16] ok == has(s.data, key) && val == (has(s.data, key) ? s.data[key] : nil)
+//@   ensures [C13] sections == 1
+
+//@ func (*SharedStore).Set(s, key, value) ()
+//@   requires s != nil && s.data != nil
+//@   assigns [C14] contents(s.data)
+//@   ensures [C14] s.data == old(s.data) && dom(s.data) == upd(old(dom(s.data)), key, true)
+//@   ensures [C14] forall k string :: s.data[k] == (k == key ? value : old(s.data[k]))
+//@   ensures [C14] len(s.data) == old(len(s.data)) + (old(has(s.data, key)) ? 0 : 1)
+//@   ensures [C13] sections == 1
+
+//@ func (*SharedStore).Has(s, key) (ok)
+//@   requires s != nil
+//@   ensures [C14] ok == has(s.data, key)
+//@   ensures [C13] sections == 1
+
+//@ func (*SharedStore).Delete(s, key) ()
+//@   requires s != nil
+//@   assigns [C14] contents(s.data)
+//@   ensures [C14] s.data == old(s.data) && (s.data != nil ==> dom(s.data) == upd(old(dom(s.data)), key, false))
+//@   ensures [C14] forall k string :: k != key ==> s.data[k] == old(s.data[k])
+//@   ensures [C14] s.data != nil ==> len(s.data) == old(len(s.data)) - (old(has(s.data, key)) ? 1 : 0)
+//@   ensures [C13] sections == 1
+
+//@ func (*SharedStore).Len(s) (n)
+//@   requires s != nil
+//@   ensures [C14] n == len(s.data)
+//@   ensures [C13] sections == 1
+
+//@ func (*SharedStore).Clear(s) ()
+//@   requires s != nil
+//@   assigns [C14] s.data
+//@   havoc alloc
+//@   ensures [C14] fresh(s.data) && (forall k string :: !has(s.data, k)) && len(s.data) == 0
+//@   ensures [C13] sections == 1
+
+//@ func (*SharedStore).GetAll(s) (res)
+//@   requires s != nil
+//@   havoc alloc
+//@   loop 1 invariant [C14] dom(made(map[string]any, 1)) == visited(1)
+//@   loop 1 invariant [C14] forall k string :: has(visited(1), k) ==> made(map[string]any, 1)[k] == s.data[k]
+//@   ensures [C14] fresh(res) && res != s.data && dom(res) == dom(s.data)
+//@   ensures [C14] forall k string :: has(s.data, k) ==> res[k] == s.data[k]
+//@   ensures [C13] sections == 1
+
+//@ func (*SharedStore).Merge(s, data) ()
+//@   requires s != nil && s.data != nil && data != s.data
+//@   assigns [C14] contents(s.data)
+//@   loop 1 invariant [C14] dom(data) == old(dom(data)) && vals(data) == old(vals(data))
+//@   loop 1 invariant [C14] forall k string :: has(s.data, k) == (old(has(s.data, k)) || has(visited(1), k))
+//@   loop 1 invariant [C14] forall k string :: s.data[k] == (has(visited(1), k) ? data[k] : old(s.data[k]))
+//@   ensures [C14] s.data == old(s.data)
+//@   ensures [C14] data == nil ==> dom(s.data) == old(dom(s.data)) && vals(s.data) == old(vals(s.data))
+//@   ensures [C14] data != nil ==> (forall k string :: has(s.data, k) == (old(has(s.data, k)) || has(data, k)))
+//@   ensures [C14] data != nil ==> (forall k string :: s.data[k] == (has(data, k) ? data[k] : old(s.data[k])))
+//@   ensures [C13] sections <= 1 && (data != nil ==> sections == 1)
+
+//@ func (*SharedStore).Keys(s) (res)
+//@   requires s != nil
+//@   havoc alloc
+//@   ghost acc []string = slice(0, 0, 0, 0); n int = 0
+//@   on call builtin.append(s0, e) returns (r)
+//@     effect acc = r
+//@   loop 1 init acc = made([]string, 1)
+//@   loop 1 step n++
+//@   loop 1 invariant [C14] n == card(visited(1)) && len(acc) == n && n >= 0
+//@   loop 1 invariant [C14] fresh(sarr(acc)) && soff(acc) == 0 && framed([]string)
+//@   loop 1 invariant [C14] forall j int :: 0 <= j && j < n ==> has(visited(1), acc[j])
+//@   loop 1 invariant [C14] forall i int :: forall j int :: 0 <= i && i < j && j < n ==> acc[i] != acc[j]
+//@   ensures [C14] fresh(sarr(res)) && len(res) == len(s.data)
+//@   ensures [C14] forall j int :: 0 <= j && j < len(res) ==> has(s.data, res[j])
+//@   ensures [C14] forall i int :: forall j int :: 0 <= i && i < j && j < len(res) ==> res[i] != res[j]
+//@   ensures [C13] sections == 1
+
+// ---------------------------------------------------------------------------
+// Typed accessors (C15): one spec function per family, written from the documented source types;
+// every variant (plain / Or / Must, result / store) is proved equal to it.
+// ---------------------------------------------------------------------------
+
+//@ spec func isNum(v any) bool = isType(v, int) || isType(v, int8) || isType(v, int16) || isType(v, int32) || isType(v, int64) || isType(v, uint) || isType(v, uint8) || isType(v, uint16) || isType(v, uint32) || isType(v, uint64) || isType(v, float32) || isType(v, float64)
+//@ spec func intOf(v any) int = isType(v, int) ? v.(int) : (isType(v, int8) ? conv(v.(int8), int8, int) : (isType(v, int16) ? conv(v.(int16), int16, int) : (isType(v, int32) ? conv(v.(int32), int32, int) : (isType(v, int64) ? conv(v.(int64), int64, int) : (isType(v, uint) ? conv(v.(uint), uint, int) : (isType(v, uint8) ? conv(v.(uint8), uint8, int) : (isType(v, uint16) ? conv(v.(uint16), uint16, int) : (isType(v, uint32) ? conv(v.(uint32), uint32, int) : (isType(v, uint64) ? conv(v.(uint64), uint64, int) : (isType(v, float32) ? conv(v.(float32), float32, int) : (conv(v.(float64), float64, int))))))))))))
+//@ spec func floatOf(v any) float64 = isType(v, int) ? conv(v.(int), int, float64) : (isType(v, int8) ? conv(v.(int8), int8, float64) : (isType(v, int16) ? conv(v.(int16), int16, float64) : (isType(v, int32) ? conv(v.(int32), int32, float64) : (isType(v, int64) ? conv(v.(int64), int64, float64) : (isType(v, uint) ? conv(v.(uint), uint, float64) : (isType(v, uint8) ? conv(v.(uint8), uint8, float64) : (isType(v, uint16) ? conv(v.(uint16), uint16, float64) : (isType(v, uint32) ? conv(v.(uint32), uint32, float64) : (isType(v, uint64) ? conv(v.(uint64), uint64, float64) : (isType(v, float32) ? conv(v.(float32), float32, float64) : (v.(float64))))))))))))
+//@ spec func isStr(v any) bool = isType(v, string)
+//@ spec func isBoolV(v any) bool = isType(v, bool)
+//@ spec func isMapV(v any) bool = isType(v, map[string]any)
+//@ spec func isSliceV(v any) bool = kind(v) == KSlice
+//@ spec func lenOf(v any) int
+//@ spec func elemOf(v any, i int) any
+//@ func Result.AsString(r) (x, ok)
+//@   ensures [C15] ok == isStr(r.value) && x == (isStr(r.value) ? r.value.(string) : "")
+//@ func Result.AsStringOr(r, d) (x)
+//@   ensures [C15] x == (isStr(r.value) ? r.value.(string) : d)
+//@ func Result.MustString(r) (x)
+//@   may-panic
+//@   ensures [C15] !panicked ==> isStr(r.value) && x == r.value.(string)
+//@   ensures [C15] panicked ==> !isStr(r.value)
+//@ func (*SharedStore).GetString(s, key) (x)
+//@   requires s != nil
+//@   ensures [C15] x == (has(s.data, key) && isStr(s.data[key]) ? s.data[key].(string) : "")
+//@ func (*SharedStore).GetStringOr(s, key, d) (x)
+//@   requires s != nil
+//@   ensures [C15] x == (has(s.data, key) && isStr(s.data[key]) ? s.data[key].(string) : d)
+//@ func Result.AsInt(r) (x, ok)
+//@   ensures [C15] ok == isNum(r.value) && x == (isNum(r.value) ? intOf(r.value) : 0)
+//@ func Result.AsIntOr(r, d) (x)
+//@   ensures [C15] x == (isNum(r.value) ? intOf(r.value) : d)
+//@ func Result.MustInt(r) (x)
+//@   may-panic
+//@   ensures [C15] !panicked ==> isNum(r.value) && x == intOf(r.value)
+//@   ensures [C15] panicked ==> !isNum(r.value)
+//@ func (*SharedStore).GetInt(s, key) (x)
+//@   requires s != nil
+//@   ensures [C15] x == (has(s.data, key) && isNum(s.data[key]) ? intOf(s.data[key]) : 0)
+//@ func (*SharedStore).GetIntOr(s, key, d) (x)
+//@   requires s != nil
+//@   ensures [C15] x == (has(s.data, key) && isNum(s.data[key]) ? intOf(s.data[key]) : d)
+//@ func Result.AsFloat64(r) (x, ok)
+//@   ensures [C15] ok == isNum(r.value) && x == (isNum(r.value) ? floatOf(r.value) : fzero())
+//@ func Result.AsFloat64Or(r, d) (x)
+//@   ensures [C15] x == (isNum(r.value) ? floatOf(r.value) : d)
+//@ func Result.MustFloat64(r) (x)
+//@   may-panic
+//@   ensures [C15] !panicked ==> isNum(r.value) && x == floatOf(r.value)
+//@   ensures [C15] panicked ==> !isNum(r.value)
+//@ func (*SharedStore).GetFloat64(s, key) (x)
+//@   requires s != nil
+//@   ensures [C15] x == (has(s.data, key) && isNum(s.data[key]) ? floatOf(s.data[key]) : fzero())
+//@ func (*SharedStore).GetFloat64Or(s, key, d) (x)
+//@   requires s != nil
+//@   ensures [C15] x == (has(s.data, key) && isNum(s.data[key]) ? floatOf(s.data[key]) : d)
+//@ func Result.AsBool(r) (x, ok)
+//@   ensures [C15] ok == isBoolV(r.value) && x == (isBoolV(r.value) ? r.value.(bool) : false)
+//@ func Result.AsBoolOr(r, d) (x)
+//@   ensures [C15] x == (isBoolV(r.value) ? r.value.(bool) : d)
+//@ func Result.MustBool(r) (x)
+//@   may-panic
+//@   ensures [C15] !panicked ==> isBoolV(r.value) && x == r.value.(bool)
+//@   ensures [C15] panicked ==> !isBoolV(r.value)
+//@ func (*SharedStore).GetBool(s, key) (x)
+//@   requires s != nil
+//@   ensures [C15] x == (has(s.data, key) && isBoolV(s.data[key]) ? s.data[key].(bool) : false)
+//@ func (*SharedStore).GetBoolOr(s, key, d) (x)
+//@   requires s != nil
+//@   ensures [C15] x == (has(s.data, key) && isBoolV(s.data[key]) ? s.data[key].(bool) : d)
+//@ func Result.AsMap(r) (x, ok)
+//@   ensures [C15] ok == isMapV(r.value) && x == (isMapV(r.value) ? r.value.(map[string]any) : nil)
+//@ func Result.AsMapOr(r, d) (x)
+//@   ensures [C15] x == (isMapV(r.value) ? r.value.(map[string]any) : d)
+//@ func Result.MustMap(r) (x)
+//@   may-panic
+//@   ensures [C15] !panicked ==> isMapV(r.value) && x == r.value.(map[string]any)
+//@   ensures [C15] panicked ==> !isMapV(r.value)
+//@ func (*SharedStore).GetMap(s, key) (x)
+//@   requires s != nil
+//@   ensures [C15] x == (has(s.data, key) && isMapV(s.data[key]) ? s.data[key].(map[string]any) : nil)
+//@ func (*SharedStore).GetMapOr(s, key, d) (x)
+//@   requires s != nil
+//@   ensures [C15] x == (has(s.data, key) && isMapV(s.data[key]) ? s.data[key].(map[string]any) : d)
+
+// ToSlice: nil -> empty, []any -> itself, any other slice -> its elements in order, anything else -> one element
+//@ func ToSlice(v) (res)
+//@   havoc alloc
+//@   ghost i int = 0
+//@   loop 1 init i = 0
+//@   loop 1 step i++
+//@   loop 1 invariant [C15,C06] 0 <= i && i <= len(v.([]string)) && len(made([]any, 1)) == len(v.([]string)) && soff(made([]any, 1)) == 0 && framed([]string)
+//@   loop 1 invariant [C15,C06] forall j int :: 0 <= j && j < i ==> made([]any, 1)[j] == box(v.([]string)[j], string)
+//@   loop 2 init i = 0
+//@   loop 2 step i++
+//@   loop 2 invariant [C15,C06] 0 <= i && i <= len(v.([]int)) && len(made([]any, 2)) == len(v.([]int)) && soff(made([]any, 2)) == 0 && framed([]int)
+//@   loop 2 invariant [C15,C06] forall j int :: 0 <= j && j < i ==> made([]any, 2)[j] == box(v.([]int)[j], int)
+//@   loop 3 init i = 0
+//@   loop 3 step i++
+//@   loop 3 invariant [C15,C06] 0 <= i && i <= len(v.([]float64)) && len(made([]any, 3)) == len(v.([]float64)) && soff(made([]any, 3)) == 0 && framed([]float64)
+//@   loop 3 invariant [C15,C06] forall j int :: 0 <= j && j < i ==> made([]any, 3)[j] == box(v.([]float64)[j], float64)
+//@   loop 4 init i = 0
+//@   loop 4 step i++
+//@   loop 4 invariant [C15,C06] 0 <= i && i <= len(v.([]map[string]any)) && len(made([]any, 4)) == len(v.([]map[string]any)) && soff(made([]any, 4)) == 0 && framed([]map[string]any)
+//@   loop 4 invariant [C15,C06] forall j int :: 0 <= j && j < i ==> made([]any, 4)[j] == box(v.([]map[string]any)[j], map[string]any)
+//@   loop 5 init i = 0
+//@   loop 5 step i++
+//@   loop 5 invariant [C15,C06] 0 <= i && i <= lenOf(v) && len(made([]any, 5)) == lenOf(v) && soff(made([]any, 5)) == 0
+//@   loop 5 invariant [C15,C06] forall j int :: 0 <= j && j < i ==> made([]any, 5)[j] == elemOf(v, j)
+//@   ensures [C15,C06] v == nil ==> len(res) == 0
+//@   ensures [C15,C06] isType(v, []any) ==> res == v.([]any)
+//@   ensures [C15,C06] isType(v, []string) ==> len(res) == len(v.([]string)) && (forall j int :: 0 <= j && j < len(res) ==> res[j] == box(v.([]string)[j], string))
+//@   ensures [C15,C06] isType(v, []int) ==> len(res) == len(v.([]int)) && (forall j int :: 0 <= j && j < len(res) ==> res[j] == box(v.([]int)[j], int))
+//@   ensures [C15,C06] isType(v, []float64) ==> len(res) == len(v.([]float64)) && (forall j int :: 0 <= j && j < len(res) ==> res[j] == box(v.([]float64)[j], float64))
+//@   ensures [C15,C06] isType(v, []map[string]any) ==> len(res) == len(v.([]map[string]any)) && (forall j int :: 0 <= j && j < len(res) ==> res[j] == box(v.([]map[string]any)[j], map[string]any))
+//@   ensures [C15,C06] isSliceV(v) && !isType(v, []any) && !isType(v, []string) && !isType(v, []int) && !isType(v, []float64) && !isType(v, []map[string]any) ==> len(res) == lenOf(v) && (forall j int :: 0 <= j && j < len(res) ==> res[j] == elemOf(v, j))
+//@   ensures [C15,C06] v != nil && !isSliceV(v) ==> len(res) == 1 && res[0] == v
+//@   ensures [C15,C06] !isType(v, []any) ==> fresh(sarr(res)) && soff(res) == 0
+
+// slice accessors: succeed exactly for slice values and then return what ToSlice returns
+//@ func Result.AsSlice(r) (x, ok)
+//@   havoc alloc
+//@   ghost nTS int = 0; ts []any = slice(0, 0, 0, 0)
+//@   on call ToSlice(v) returns (s)
+//@     requires [C15] v == r.value && nTS == 0
+//@     effect nTS = 1; ts = s
+//@   ensures [C15] ok == isSliceV(r.value)
+//@   ensures [C15] isType(r.value, []any) ==> x == r.value.([]any)
+//@   ensures [C15] ok && !isType(r.value, []any) ==> nTS == 1 && x == ts
+//@   ensures [C15] !ok ==> x == slice(0, 0, 0, 0)
+//@ func Result.AsSliceOr(r, d) (x)
+//@   havoc alloc
+//@   ghost nAS int = 0; as []any = slice(0, 0, 0, 0); aok bool = false
+//@   on call Result.AsSlice(rr) returns (s, ok)
+//@     requires [C15] rr == r && nAS == 0
+//@     effect nAS = 1; as = s; aok = ok
+//@   ensures [C15] nAS == 1 && x == (aok ? as : d)
+//@ func Result.MustSlice(r) (x)
+//@   may-panic
+//@   havoc alloc
+//@   ghost nAS int = 0; as []any = slice(0, 0, 0, 0); aok bool = false
+//@   on call Result.AsSlice(rr) returns (s, ok)
+//@     requires [C15] rr == r && nAS == 0
+//@     effect nAS = 1; as = s; aok = ok
+//@   ensures [C15] !panicked ==> nAS == 1 && aok && x == as
+//@   ensures [C15] panicked ==> nAS == 1 && !aok
+//@ func (*SharedStore).GetSliceOr(s, key, d) (x)
+//@   requires s != nil
+//@   havoc alloc
+//@   ghost nTS int = 0; ts []any = slice(0, 0, 0, 0)
+//@   on call ToSlice(v) returns (sl)
+//@     requires [C15] has(s.data, key) && v == s.data[key] && nTS == 0
+//@     effect nTS = 1; ts = sl
+//@   ensures [C15] !(has(s.data, key) && isSliceV(s.data[key])) ==> x == d
+//@   ensures [C15] has(s.data, key) && isType(s.data[key], []any) ==> x == s.data[key].([]any)
+//@   ensures [C15] has(s.data, key) && isSliceV(s.data[key]) && !isType(s.data[key], []any) ==> nTS == 1 && x == ts
+//@ func (*SharedStore).GetSlice(s, key) (x)
+//@   requires s != nil
+//@   havoc alloc
+//@   ghost nG int = 0; gs []any = slice(0, 0, 0, 0)
+//@   on call (*SharedStore).GetSliceOr(ss, k, d) returns (sl)
+//@     requires [C15] ss == s && k == key && d == slice(0, 0, 0, 0) && nG == 0
+//@     effect nG = 1; gs = sl
+//@   ensures [C15] nG == 1 && x == gs
+
+
+// ---------------------------------------------------------------------------
+// Bind (C16), relative to T10: json.Marshal / json.Unmarshal are the oracle
+// ---------------------------------------------------------------------------
+//@ spec func jsonEnc(v any) []byte
+//@ spec func jsonEncErr(v any) error
+//@ spec func jsonDec(data []byte, dest any, old any) any
+//@ spec func jsonDecErr(data []byte, dest any, old any) error
+//@ spec func okDest(dest any) bool = kind(dest) == KPtr && !isNilPayload(dest)
+// bindSpec: the documented outcome of binding value v into dest (err is the returned error, p0/p1 the pointee before/after)
+//@ spec func bindSpec(v any, dest any, err error, p0 any, p1 any) bool = (v == nil || !okDest(dest) ==> err != nil && p1 == p0) && (v != nil && okDest(dest) && typ(v) == elemType(typ(dest)) ==> err == nil && p1 == v) && (v != nil && okDest(dest) && typ(v) != elemType(typ(dest)) && jsonEncErr(v) != nil ==> err != nil && Is(err, jsonEncErr(v)) && p1 == p0) && (v != nil && okDest(dest) && typ(v) != elemType(typ(dest)) && jsonEncErr(v) == nil ==> p1 == jsonDec(jsonEnc(v), dest, p0) && (jsonDecErr(jsonEnc(v), dest, p0) == nil <==> err == nil) && (jsonDecErr(jsonEnc(v), dest, p0) != nil ==> Is(err, jsonDecErr(jsonEnc(v), dest, p0))))
+//@ func Result.Bind(r, dest) (err)
+//@   assigns [C16] pointee(dest)
+//@   ensures [C16] bindSpec(r.value, dest, err, old(pointee(dest)), pointee(dest))
+//@ func (*SharedStore).Bind(s, key, dest) (err)
+//@   requires s != nil
+//@   assigns [C16] pointee(dest)
+//@   ensures [C16] !has(s.data, key) ==> err != nil && pointee(dest) == old(pointee(dest))
+//@   ensures [C16] has(s.data, key) && s.data[key] != nil ==> bindSpec(s.data[key], dest, err, old(pointee(dest)), pointee(dest))
+//@   ensures [C16] has(s.data, key) && !okDest(dest) ==> err != nil && pointee(dest) == old(pointee(dest))
+
